@@ -88,12 +88,28 @@ pub fn encdec(args: &[&str]) -> String {
     let mut stream = hooks::default_greeting_bytes();
     stream.extend_from_slice(&dst);
     let n = stream.len();
-    let segs: Vec<(&str, Vec<usize>)> = vec![
-        ("whole", vec![n]),
-        ("bytewise", if n <= 4096 { vec![1; n] } else { vec![64, 1, 1, 1, n - 67] }),
-        ("lastbyte", vec![n - 1, 1]),
+    let mut segs: Vec<(String, Vec<usize>)> = vec![
+        ("whole".to_string(), vec![n]),
+        ("bytewise".to_string(), if n <= 4096 { vec![1; n] } else { vec![64, 1, 1, 1, n - 67] }),
+        ("lastbyte".to_string(), vec![n - 1, 1]),
     ];
+    // the first read ends inside (or right after) the first frame's header: every offset of a 9-octet header
+    for cut in 1..=10usize {
+        if 64 + cut < n {
+            segs.push((format!("hdr{}", cut), vec![64 + cut, n - 64 - cut]));
+        }
+    }
+    // ... and inside the header of the LAST frame
+    if frames.len() > 1 {
+        let last_len = *lens.last().unwrap();
+        let hdr = if last_len > 255 { 9 } else { 2 };
+        let start = n - last_len - hdr;
+        for cut in 1..hdr {
+            segs.push((format!("lasthdr{}", cut), vec![start + cut, n - start - cut]));
+        }
+    }
     for (name, parts) in segs {
+        let name = name.as_str();
         let mut d = hooks::Codec::new();
         let mut buf = BytesMut::new();
         let mut items = Vec::new();
